@@ -22,7 +22,7 @@ Ev == Tr[l]
 Is(e) == l <= Len(Tr) /\ Ev.e = e /\ l' = l + 1
 Pairs == 1..2
 
-NoSc == [op |-> "none", rm |-> FALSE, force |-> FALSE, out |-> "file", ok |-> <<TRUE, TRUE>>, dstPre |-> <<FALSE, FALSE>>, n |-> 0]
+NoSc == [op |-> "none", rm |-> FALSE, force |-> FALSE, out |-> "file", ok |-> <<TRUE, TRUE>>, dstPre |-> <<FALSE, FALSE>>, n |-> 0, full |-> FALSE]
 
 CInit == /\ l = 1 /\ TLCSet(1, 0) /\ sc = NoSc
          /\ srcExists = [p \in Pairs |-> FALSE] /\ dstState = [p \in Pairs |-> "none"] /\ dstBytes = [p \in Pairs |-> 0]
@@ -30,7 +30,7 @@ CInit == /\ l = 1 /\ TLCSet(1, 0) /\ sc = NoSc
 
 \* a new run: op, flags, which inputs the library accepts, which destinations pre-exist
 Scenario == /\ Is("scenario")
-            /\ sc' = [op |-> Ev.op, rm |-> Ev.rm, force |-> Ev.force, out |-> Ev.out, ok |-> Ev.ok, dstPre |-> Ev.dstPre, n |-> Ev.n]
+            /\ sc' = [op |-> Ev.op, rm |-> Ev.rm, force |-> Ev.force, out |-> Ev.out, ok |-> Ev.ok, dstPre |-> Ev.dstPre, n |-> Ev.n, full |-> Ev.full]
             /\ srcExists' = [p \in Pairs |-> p <= Ev.n]
             /\ dstState' = [p \in Pairs |-> IF Ev.dstPre[p] THEN "old" ELSE "none"]
             /\ dstBytes' = [p \in Pairs |-> 0]
@@ -85,7 +85,8 @@ Exit == /\ Is("exit")
         \* exit status 0 iff the library accepts every input (and nothing was refused)
         /\ LET refused == \E p \in 1..sc.n : sc.out = "file" /\ sc.dstPre[p] /\ ~sc.force
                allok == \A p \in 1..sc.n : sc.ok[p] IN
-           (Ev.rc = 0) <=> (allok /\ ~refused)
+           \* (sc.full: standard output is a full device - the data cannot have been written, whatever the moment the error surfaces)
+           (Ev.rc = 0) <=> (allok /\ ~refused /\ ~sc.full)
         \* a failed operation leaves no output file behind
         /\ \A p \in 1..sc.n : (~sc.ok[p] /\ sc.out = "file") => dstState[p] \in {"none"} \/ (dstState[p] = "old" /\ ~sc.force)
         /\ UNCHANGED <<sc, srcExists, dstState, dstBytes, dstTouchedAfterRm>>
